@@ -692,3 +692,23 @@ Proof.
   - destruct (recv (core s) r) as [[k1 r1] d1]. inversion H; subst. right.
     split; [lia|]. split; reflexivity.
 Qed.
+
+(* ---- Close: the final flush obeys the core's admission rule ---- *)
+Lemma close_admission_thm :
+  forall s now s1 o,
+    inv (core s) -> close_full s now = Ok (s1, o) ->
+    let k := core s in
+    let cw := if nocwnd k =? 0 then Z.min (cwnd k) (Z.min (snd_wnd k) (rmt_wnd k))
+              else Z.min (snd_wnd k) (rmt_wnd k) in
+    bufptr s1 = bufptr s /\
+    (qlen (snd_buf (core s1)) > qlen (snd_buf k) -> qlen (snd_buf (core s1)) <= cw) /\
+    Forall (fun sg => s_xmit sg = 1) (skipn (length (snd_buf k)) (snd_buf (core s1))) /\
+    snd_payloads (core s1) = snd_payloads k.
+Proof.
+  intros s now s1 o Hinv Hc. unfold close_full in Hc.
+  destruct (flush (core s) FLUSH_FULL now) as [[[k1 nx] o1]|w] eqn:Hf; [|discriminate].
+  inversion Hc; subst s1 o; clear Hc. cbn [core bufptr].
+  pose proof (flush_admission _ _ _ _ _ _ Hinv Hf) as [_ [Ha Hx]].
+  pose proof (flush_payloads _ _ _ _ _ _ Hf) as [Hp _].
+  repeat split; assumption.
+Qed.
